@@ -25,6 +25,7 @@ from __future__ import annotations
 
 import ast
 
+from ..cfg import ALL
 from ..model import parent, unparse
 from ..selftest import V
 from ._util_C import (
@@ -41,6 +42,7 @@ from ._util_C import (
     only_via,
     origins,
     resolves_to,
+    single_origin,
     strip_await,
     within,
 )
@@ -478,6 +480,209 @@ def _completion_nodes(p, f, call):
     return done, kill
 
 
+# ---- "a value that is None raises before it is stored": guards, followed through helpers and literal tables
+
+
+def _none_edge(test: ast.AST, names) -> str | None:
+    """'t' / 'f': the outcome of `test` whenever (one of) the locals `names` is None; None when it depends on more.
+    `v is None`, `None is v`, `v == None`, `not v` are true, `v is not None`, `v` are false; a disjunction is true as soon
+    as one operand is, a conjunction false as soon as one operand is (`a is None or b is None`, `a and b`)."""
+
+    def val(e):
+        if isinstance(e, ast.NamedExpr):
+            return val(e.value)
+        if is_name(e) and e.id in names:
+            return False
+        if isinstance(e, ast.UnaryOp) and isinstance(e.op, ast.Not):
+            r = val(e.operand)
+            return None if r is None else not r
+        if isinstance(e, ast.Compare) and len(e.ops) == 1:
+            a, b = e.left, e.comparators[0]
+            if (is_name(a) and a.id in names and const(b) is None) or (is_name(b) and b.id in names and const(a) is None):
+                if isinstance(e.ops[0], (ast.Is, ast.Eq)):
+                    return True
+                if isinstance(e.ops[0], (ast.IsNot, ast.NotEq)):
+                    return False
+            return None
+        if isinstance(e, ast.BoolOp):
+            rs = [val(x) for x in e.values]
+            if isinstance(e.op, ast.Or):
+                return True if any(r is True for r in rs) else False if all(r is False for r in rs) else None
+            return False if any(r is False for r in rs) else True if all(r is True for r in rs) else None
+        return None
+
+    r = val(test)
+    return None if r is None else "t" if r else "f"
+
+
+def _param_of(callee, call: ast.Call, arg: ast.AST) -> str | None:
+    """Name of the parameter of `callee` that `arg` (an argument of `call`) is bound to; None when unknown (*/**)."""
+    if any(isinstance(x, ast.Starred) for x in call.args) or any(k.arg is None for k in call.keywords):
+        return None
+    a = callee.node.args
+    pos = [x.arg for x in a.posonlyargs + a.args]
+    names = pos + [x.arg for x in a.kwonlyargs]
+    for k in call.keywords:
+        if k.value is arg:
+            return k.arg if k.arg in names else None
+    bound = bool(pos) and pos[0] in ("self", "cls") and callee.cls is not None and isinstance(call.func, ast.Attribute) \
+        and not any(unparse(d) in ("staticmethod",) for d in callee.node.decorator_list)
+    for i, x in enumerate(call.args):
+        if x is arg:
+            j = i + (1 if bound else 0)
+            return pos[j] if j < len(pos) else None
+    return None
+
+
+def _executed_with_stmt(c: ast.Call) -> bool:
+    """The call is evaluated whenever its statement is: it is the (awaited) expression statement itself or the whole
+    right-hand side of an assignment (not an operand of `and` / `or` / a conditional expression / a lambda / ...)."""
+    e = parent(c)
+    if isinstance(e, ast.Await):
+        e = parent(e)
+    return isinstance(e, (ast.Expr, ast.Assign, ast.AnnAssign)) and strip_await(e.value) is c
+
+
+def _none_guards(p, f, names, depth=1):
+    """[(CFG node id, blocked successor ids, description)]: nodes of `f` past which control continues normally only
+    while the locals `names` are not None -- a test whose outcome for None leads only to `raise` (blocked = that
+    outcome's successors; spelled any way `_none_edge` reads), or an (awaited) call statement handing the local to a
+    program function that raises whenever that parameter is None (helper extraction, followed `depth` levels)."""
+    g = f.cfg
+    out = []
+    for t in g.nodes.values():
+        if t.kind == "test" and t.ast is not None:
+            e = _none_edge(t.ast, names)
+            if e is not None and leads_only_to_raise(g, branch(g, t.id, e)):
+                out.append((t.id, branch(g, t.id, e), f"`{unparse(t.ast)[:60]}` raises"))
+    if depth <= 0:
+        return out
+    for n in g.nodes.values():
+        if n.kind != "stmt":
+            continue
+        for c in n.calls():
+            args = [x for x in [*c.args, *(k.value for k in c.keywords)] if is_name(x) and x.id in names]
+            if not args or not _executed_with_stmt(c):
+                continue
+            qs = p.resolve_call(f, c, fanout=False)
+            callee = p.functions.get(qs[0]) if len(qs) == 1 else None
+            if callee is None or callee is f or isinstance(callee.node, ast.Lambda) or callee.decorators:
+                continue
+            if callee.is_async != isinstance(parent(c), ast.Await):
+                continue  # a coroutine that is not awaited here does not run here
+            if any(isinstance(x, (ast.Yield, ast.YieldFrom)) for x in callee.body_nodes()):
+                continue
+            for a in args:
+                pn = _param_of(callee, c, a)
+                if pn is not None and _raises_on_none(p, callee, pn, depth - 1):
+                    out.append((n.id, [], f"helper {callee.qualname} raises when `{pn}` is None"))
+    return out
+
+
+def _raises_on_none(p, callee, pn: str, depth: int) -> bool:
+    """Every call of `callee` with parameter `pn` = None raises: the parameter is never rebound, and a guard on it lies on
+    every path from the entry to a normal return while the None outcome of that guard reaches no return (even through an
+    exception handler)."""
+    g = callee.cfg
+    if any(d.kind != "param" for d in defs_of(callee, pn)):
+        return False
+    for nid, blocked, _ in _none_guards(p, callee, {pn}, depth):
+        if g.path(g.entry, [g.exit], avoid={nid}) is None and g.exit not in g.reach(blocked, include_src=True, kinds=ALL):
+            return True
+    return False
+
+
+def _table_vars(f, loop: ast.For, names):
+    """[(loop variable, table display)]: `loop` iterates over a literal table -- a list / tuple display of the values
+    or of equally long rows (`for kind, value, shown in (('input', a, x), ('output', b, y))`), or `.items()` /
+    `.values()` of a dict display -- that lists one of the locals `names` in the column bound to the loop variable.
+    The table may be a local bound once to the display and used only as this loop's iterable."""
+    it, view = loop.iter, None
+    if isinstance(it, ast.Call) and isinstance(it.func, ast.Attribute) and it.func.attr in ("items", "values") \
+            and not it.args and not it.keywords:
+        it, view = it.func.value, it.func.attr
+    if is_name(it):
+        ds = defs_of(f, it.id)
+        loads = [x for x in f.body_nodes() if is_name(x, it.id) and isinstance(x.ctx, ast.Load)]
+        if len(ds) != 1 or ds[0].kind != "assign" or ds[0].index is not None or len(loads) != 1:
+            return []
+        it = ds[0].value
+    if view is None and isinstance(it, (ast.List, ast.Tuple)):
+        rows = list(it.elts)
+    elif view is not None and isinstance(it, ast.Dict) and all(k is not None for k in it.keys):
+        rows = list(it.values) if view == "values" else [ast.Tuple(elts=[k, v], ctx=ast.Load()) for k, v in zip(it.keys, it.values)]
+    else:
+        return []
+    if any(isinstance(r, ast.Starred) for r in rows):
+        return []
+    tgt = loop.target
+    out = []
+    if is_name(tgt):
+        if any(is_name(r) and r.id in names for r in rows):
+            out.append((tgt.id, it))
+    elif isinstance(tgt, (ast.Tuple, ast.List)) and not any(isinstance(e, ast.Starred) for e in tgt.elts):
+        width = len(tgt.elts)
+        if all(isinstance(r, (ast.Tuple, ast.List)) and len(r.elts) == width
+               and not any(isinstance(e, ast.Starred) for e in r.elts) for r in rows):
+            for k, e in enumerate(tgt.elts):
+                if is_name(e) and any(is_name(r.elts[k]) and r.elts[k].id in names for r in rows):
+                    out.append((e.id, it))
+    return out
+
+
+def _not_none_at(p, f, vname: str, nid: int) -> str | None:
+    """How the local `vname` is known not to be None whenever control reaches CFG node `nid` (None: it is not known).
+    (a) a guard (`_none_guards`: raising test on the local or a plain alias of it, or a raising helper it is handed to)
+        dominates `nid`, and `nid` cannot be reached from the guard's None outcome (also not through a handler);
+    (b) a `for` over a literal table listing the local (`_table_vars`) dominates `nid`; `nid` is reached only after the
+        loop is exhausted (no `break` route); the loop variable is bound by the loop only; in every iteration a guard on
+        the loop variable is passed before the next iteration / the end of the loop.
+    In both cases the local is not rebound between the guard (the table) and `nid`."""
+    g = f.cfg
+    vdefs = defs_of(f, vname)
+    names = {vname}
+    if len(vdefs) == 1:  # plain single-assignment aliases of a single-assignment local denote the same object
+        grew = True
+        while grew:
+            grew = False
+            for x in f.body_nodes():
+                if isinstance(x, ast.Name) and isinstance(x.ctx, ast.Store) and x.id not in names:
+                    ds = defs_of(f, x.id)
+                    if len(ds) == 1 and ds[0].kind in ("assign", "walrus") and ds[0].index is None and is_name(ds[0].value) \
+                            and ds[0].value.id in names:
+                        names.add(x.id)
+                        grew = True
+    def_ids = [i for d in vdefs if d.stmt is not None for i in (g.ids_of(d.stmt) or g.node_containing(d.stmt))]
+
+    def rebound_after(src_ids) -> bool:
+        after = g.reach(src_ids)
+        return any(x in after and nid in g.reach([x]) for x in def_ids)
+
+    for gid, blocked, desc in _none_guards(p, f, names):
+        if gid != nid and g.dominates(gid, nid) and nid not in g.reach(blocked, include_src=True, kinds=ALL) \
+                and not rebound_after([gid]):
+            return desc
+    for loop in f.body_nodes():
+        if not isinstance(loop, ast.For):
+            continue
+        heads = g.ids_of(loop)
+        if len(heads) != 1:
+            continue
+        head = heads[0]
+        body = branch(g, head, "t")
+        if not body or head == nid or not g.dominates(head, nid) or any(g.path(b, [nid], avoid=[head]) is not None for b in body):
+            continue
+        for var, table in _table_vars(f, loop, names):
+            if len(defs_of(f, var)) != 1 or rebound_after(g.node_containing(table) or [head]):
+                continue
+            for gid, blocked, desc in _none_guards(p, f, {var}):
+                if within(g.nodes[gid].ast, loop) and gid != head \
+                        and all(must_pass(g, b, [head, g.exit, nid], [gid]) for b in body) \
+                        and nid not in g.reach(blocked, include_src=True, kinds=ALL):
+                    return f"as `{var}` of the loop over the literal table `{unparse(table)[:40]}..`: {desc}"
+    return None
+
+
 def r3(ctx):
     p = ctx.prog
     f = p.func(SETDIRS)
@@ -535,30 +740,26 @@ def r3(ctx):
         v = n.value
         ok = False
         msg = f"`{unparse(n)}`: the stored value is not a resolved path guarded against None"
+        how = ""
+        if is_name(v):
+            # a plain alias of the resolved local (`_tmp = input_directory; job.input_directory = _tmp`) is the local itself
+            o = single_origin(f, v)
+            if is_name(o) and o.id != v.id and len(defs_of(f, v.id)) == 1:
+                v = o
         if is_name(v):
             ds = defs_of(f, v.id)
             from_resolve = bool(ds) and all(
                 dd.value is not None and any(isinstance(x, ast.Call) and isinstance(x.func, ast.Attribute) and x.func.attr == "resolve"
                                              for x in ast.walk(dd.value)) for dd in ds)
-            tests = [
-                t for t in g.nodes.values()
-                if t.kind == "test" and isinstance(t.ast, ast.Compare) and len(t.ast.ops) == 1 and is_name(t.ast.left, v.id)
-                and const(t.ast.comparators[0]) is None and isinstance(t.ast.ops[0], (ast.Is, ast.IsNot))
-            ] + [
-                t for t in g.nodes.values()
-                if t.kind == "test" and isinstance(t.ast, ast.UnaryOp) and isinstance(t.ast.op, ast.Not) and is_name(t.ast.operand, v.id)
-            ]
             nid = g.ids_of(n)[0]
-            guarded = False
-            for t in tests:
-                none_edge = "f" if isinstance(t.ast, ast.Compare) and isinstance(t.ast.ops[0], ast.IsNot) else "t"
-                if g.dominates(t.id, nid) and leads_only_to_raise(g, branch(g, t.id, none_edge)):
-                    guarded = True
+            how = _not_none_at(p, f, v.id, nid)
+            guarded = how is not None
             ok = from_resolve and guarded
             if from_resolve and not guarded:
-                msg = f"`{v.id}` may be None when it is stored as {job_p}.{d} (no raising `is None` test dominates the store)"
-        ctx.ob("R3", f"a {d} that resolves to None raises before it is stored on the job", ok, func=f, node=n,
-               instance=f"resolve-guard:{d}", message=msg)
+                msg = (f"`{v.id}` may be None when it is stored as {job_p}.{d} (no raising `is None` test dominates the store: "
+                       "neither directly, nor in a helper it is handed to, nor in a loop over a literal table that lists it)")
+        ctx.ob("R3", f"a {d} that resolves to None raises before it is stored on the job" + (f" ({how})" if ok and how else ""),
+               ok, func=f, node=n, instance=f"resolve-guard:{d}", message=msg)
 
 
 # --------------------------------------------------------------------------- R4
@@ -634,6 +835,12 @@ _DIRLIST = "[job.input_directory, job.output_directory, job.tmp_directory]"
 _MK_COMP = "create_tasks = [" + _MKTASK + " for location in locations for directory in " + _DIRLIST + "]\n"
 _GATHER = "    await asyncio.gather(*create_tasks)\n"
 _REG_LOOP_HEAD = "    for location in locations:\n        for directory in (job.input_directory, job.output_directory, job.tmp_directory):\n            if not self.workflow.context.data_manager.get_data_locations("
+
+_CHECKS = ("    if input_directory is None:\n        raise WorkflowExecutionException(f'Job {self.name} cannot resolve input directory: {job.input_directory}')\n"
+           "    if output_directory is None:\n        raise WorkflowExecutionException(f'Job {self.name} cannot resolve output directory: {job.output_directory}')\n"
+           "    if tmp_directory is None:\n        raise WorkflowExecutionException(f'Job {self.name} cannot resolve tmp directory: {job.tmp_directory}')\n")
+_CHECK_LOOP = ("    for kind, resolved, directory in (('input', input_directory, job.input_directory), ('output', output_directory, job.output_directory), ('tmp', tmp_directory, job.tmp_directory)):\n"
+               "        if resolved is None:\n            raise WorkflowExecutionException(f'Job {self.name} cannot resolve {kind} directory: {directory}')\n")
 
 VARIANTS = [
     # ---- R1
@@ -740,4 +947,61 @@ VARIANTS = [
       "drawn = uuid.uuid4()\n    text = str(drawn)\n    return text", None),
     V("random_name delegates to an extracted helper", UFILE, RANDOM, "return str(uuid.uuid4())", "return _new_name()", None,
       append="def _new_name():\n    _sf_ret = str(uuid.uuid4())\n    return _sf_ret"),
+    # ---- the None guard of the resolved directories in other shapes (fx7: B12-4 table loop; helper; merged test)
+    V("three None checks collapsed into a loop over a tuple table", SFILE, SETDIRS, _CHECKS, _CHECK_LOOP, None),
+    V("None checks as a loop over a dict table bound to a local", SFILE, SETDIRS, _CHECKS,
+      "    resolved_dirs = {'input': input_directory, 'output': output_directory, 'tmp': tmp_directory}\n"
+      "    for kind, resolved in resolved_dirs.items():\n        if resolved is None:\n"
+      "            raise WorkflowExecutionException(f'Job {self.name} cannot resolve {kind} directory')\n", None),
+    V("None checks as a loop over the plain values, guard clause form", SFILE, SETDIRS, _CHECKS,
+      "    for resolved in [input_directory, output_directory, tmp_directory]:\n        if resolved is not None:\n"
+      "            continue\n        raise WorkflowExecutionException(f'Job {self.name} cannot resolve a directory')\n", None),
+    V("None checks extracted into a raising helper", SFILE, SETDIRS, _CHECKS,
+      "    _require_resolved('input', input_directory)\n    _require_resolved('output', output_directory)\n"
+      "    _require_resolved('tmp', tmp_directory)\n", None,
+      append="def _require_resolved(kind, resolved):\n    if resolved is None:\n"
+             "        raise WorkflowExecutionException(f'cannot resolve {kind} directory')\n"),
+    V("table loop calling a raising helper", SFILE, SETDIRS, _CHECKS,
+      "    for kind, resolved in (('input', input_directory), ('output', output_directory), ('tmp', tmp_directory)):\n"
+      "        _require_resolved(kind, resolved)\n", None,
+      append="def _require_resolved(kind, resolved):\n    if resolved is None:\n"
+             "        raise WorkflowExecutionException(f'cannot resolve {kind} directory')\n"),
+    V("three None checks merged into one disjunction", SFILE, SETDIRS, _CHECKS,
+      "    if input_directory is None or output_directory is None or None is tmp_directory:\n"
+      "        raise WorkflowExecutionException(f'Job {self.name} cannot resolve its directories')\n", None),
+    V("stores nested under the conjunction of the not-None tests", SFILE, SETDIRS, _CHECKS,
+      "    if not (input_directory is not None and output_directory is not None and tmp_directory):\n"
+      "        raise WorkflowExecutionException(f'Job {self.name} cannot resolve its directories')\n", None),
+    V("table loop without the tmp row", SFILE, SETDIRS, _CHECKS,
+      _CHECK_LOOP.replace(", ('tmp', tmp_directory, job.tmp_directory)", ""), "R3"),
+    V("table loop left after the first row", SFILE, SETDIRS, _CHECKS,
+      _CHECK_LOOP + "        break\n", "R3"),
+    V("table loop skips the tmp row before the test", SFILE, SETDIRS, _CHECKS,
+      _CHECK_LOOP.replace("        if resolved is None:", "        if kind == 'tmp':\n            continue\n        if resolved is None:"), "R3"),
+    V("table loop tests the wrong column", SFILE, SETDIRS, _CHECKS,
+      _CHECK_LOOP.replace("if resolved is None:", "if directory is None:"), "R3"),
+    V("table loop whose raise is swallowed by a handler", SFILE, SETDIRS, _CHECKS,
+      "    for kind, resolved, directory in (('input', input_directory, job.input_directory), ('output', output_directory, job.output_directory), ('tmp', tmp_directory, job.tmp_directory)):\n"
+      "        try:\n            if resolved is None:\n                raise WorkflowExecutionException(f'Job {self.name} cannot resolve {kind} directory: {directory}')\n"
+      "        except WorkflowExecutionException as err:\n            logger.warning(str(err))\n", "R3"),
+    V("local rebound between the table and the store", SFILE, SETDIRS, _CHECKS,
+      _CHECK_LOOP + "    tmp_directory = await StreamFlowPath(job.tmp_directory, context=self.workflow.context, location=next(iter(locations))).resolve()\n", "R3"),
+    V("helper only logs a None directory", SFILE, SETDIRS, _CHECKS,
+      "    _require_resolved('input', input_directory)\n    _require_resolved('output', output_directory)\n"
+      "    _require_resolved('tmp', tmp_directory)\n", "R3",
+      append="def _require_resolved(kind, resolved):\n    if resolved is None:\n"
+             "        logger.warning(f'cannot resolve {kind} directory')\n"),
+    V("helper raises only for some kinds", SFILE, SETDIRS, _CHECKS,
+      "    _require_resolved('input', input_directory)\n    _require_resolved('output', output_directory)\n"
+      "    _require_resolved('tmp', tmp_directory)\n", "R3",
+      append="def _require_resolved(kind, resolved):\n    if kind == 'tmp':\n        return\n    if resolved is None:\n"
+             "        raise WorkflowExecutionException(f'cannot resolve {kind} directory')\n"),
+    V("helper is handed the job field instead of the resolved local", SFILE, SETDIRS, _CHECKS,
+      "    _require_resolved('input', input_directory)\n    _require_resolved('output', output_directory)\n"
+      "    _require_resolved('tmp', job.tmp_directory)\n", "R3",
+      append="def _require_resolved(kind, resolved):\n    if resolved is None:\n"
+             "        raise WorkflowExecutionException(f'cannot resolve {kind} directory')\n"),
+    V("merged test is a conjunction: one None directory passes", SFILE, SETDIRS, _CHECKS,
+      "    if input_directory is None and output_directory is None and tmp_directory is None:\n"
+      "        raise WorkflowExecutionException(f'Job {self.name} cannot resolve its directories')\n", "R3"),
 ]
